@@ -502,7 +502,8 @@ class Ctx:
     if z3.is_true(t):
       st.discharged += 1
       return True
-    r, m = self.check([z3.simplify(z3.Not(t))])
+    neg = z3.simplify(z3.Not(t))
+    r, m = self.check([neg])
     if r == "unsat":
       st.discharged += 1
       self.claims.append((clause, t))
@@ -511,11 +512,11 @@ class Ctx:
       st.inconclusive.append({"clause": clause, "why": "solver unknown on obligation",
                               "detail": detail, "path": self.describe_path()})
       return None
-    self._failed(clause, detail, m, str(t)[:300])
+    self._failed(clause, detail, m, str(t)[:300], extra=[neg])
     return False
 
-  def _failed(self, clause, detail, model, what):
-    raise CandidateViolation(clause, detail, self.model_dict(model), what)
+  def _failed(self, clause, detail, model, what, extra=()):
+    raise CandidateViolation(clause, detail, self.model_dict(model, extra=extra), what)
 
   def describe_path(self, maxlen=12):
     out = []
@@ -524,7 +525,7 @@ class Ctx:
       out.append(s[:160])
     return out
 
-  def model_dict(self, model=None, inputs_only=False):
+  def model_dict(self, model=None, inputs_only=False, extra=()):
     """name -> Fraction/int for every declared variable."""
     out = {}
     full = model
@@ -564,6 +565,7 @@ class Ctx:
         sol = z3.Solver()
         sol.set("timeout", self.timeout_ms)
         for e in parts: sol.add(e)
+        for e in extra: sol.add(e)          # e.g. the negated claim: the completed model must still violate it
         sol.push()
         for name, (kind, c) in self.vars.items():
           if kind in ("real", "int", "aux"):
